@@ -447,7 +447,7 @@ func formEntry() *entry {
 		}) || len(a) == 0 || len(b) == 0 {
 			return
 		}
-		reuseCheck(c, e, "UnmarshalXML(encoding)", a, b)
+		reuseCheck(c, e, "UnmarshalXML(encoding)", true, a, b)
 	}
 	return e
 }
